@@ -67,6 +67,9 @@ func c09Run(c *mc.Ctx) {
 		if c.Mine() {
 			writerBFS(c, "C09", WriterCfg{Kind: "default", Sizes: []int{5, 1<<20 + 1, 1 << 21}, Reverse: cot == 1, CoTenant: cot, PayPow2: true}, 3)
 		}
+		if c.Mine() {
+			writerBFS(c, "C09", WriterCfg{Kind: "default", RichSink: true, SinkFlushFails: true, Sizes: wsizes, Reverse: cot == 2, CoTenant: cot, PayPow2: true}, depth)
+		}
 		for _, rev := range []bool{false, true} {
 			for _, k := range []int{0, 1, 2} {
 				if !c.Mine() {
